@@ -536,6 +536,16 @@ class Oracle:
                 sem._value, sem._initial_value, op))
         if sem._value < 0:
             raise Violation('C10/negative', 'value %d' % sem._value)
+        for mj in sim.jobs:
+            seen = getattr(mj, 'cb_slots', None)
+            if seen is not None and mj.kind == 'apply' and mj.slot and \
+                    seen[0] < 1 <= seen[1]:
+                # the slot is given back when the result arrives: the job's own
+                # callback (which may submit the next job, and would block for
+                # ever in the result handler otherwise) already sees it
+                raise Violation('C10/slot-held-during-callback',
+                                'job %d: its result callback saw %d free slots '
+                                'of %d' % (mj.idx, seen[0], seen[1]))
         if sim.config.get('putlocks') and not sim.any_exit and not sim.closed \
                 and not sim.labels & {'grow', 'shrink'}:
             outstanding = sum(
